@@ -6,9 +6,29 @@
 EXTENDS FuelVM, TraceIO
 VARIABLES l, vm
 trVars == <<l, vm>>
-NoVm == [regs |-> <<>>, mem |-> <<>>, slen |-> 0, env |-> <<>>, frames |-> <<>>, glimit |-> "0", txlen |-> 0, done |-> FALSE]
+NoVm == [regs |-> <<>>, mem |-> <<>>, slen |-> 0, env |-> <<>>, frames |-> <<>>, glimit |-> "0", txlen |-> 0, done |-> FALSE,
+         code |-> <<>>, cbal |-> <<>>, inputs |-> {}, nrc |-> 0, opv |-> <<>>, outs |-> <<>>,
+         led |-> [mint |-> <<>>, burn |-> <<>>, msg |-> "0"], bal0 |-> <<>>, fee |-> <<>>, outs0 |-> <<>>, cbal0 |-> <<>>, fin |-> <<>>]
 TrInit == l = 1 /\ vm = NoVm
 e == Rec[l]
+
+Strip(r) == [f \in DOMAIN r \ {"enc"} |-> r[f]]
+\* the first n receipts of the step are exactly the instruction's receipts
+RcPrefixOk(eff) == /\ Len(e.rc) >= Len(eff.rc)
+                   /\ \A i \in 1..Len(eff.rc) : Strip(e.rc[i]) = eff.rc[i]
+\* running totals of minted / burned / messaged amounts taken from the OBSERVED receipts (C27)
+AddTo(f, k, x) == (k :> BN!Add(IF k \in DOMAIN f THEN f[k] ELSE "0", x)) @@ f
+RECURSIVE LedgerAfter(_, _, _)
+LedgerAfter(led, rcs, i) ==
+    IF i > Len(rcs) THEN led
+    ELSE LET r == rcs[i] IN
+         LedgerAfter(IF r.kind = "Mint" THEN [led EXCEPT !.mint = AddTo(@, SHA256(r.contract_id \o r.sub_id), r.val)]
+                     ELSE IF r.kind = "Burn" THEN [led EXCEPT !.burn = AddTo(@, SHA256(r.contract_id \o r.sub_id), r.val)]
+                     ELSE IF r.kind = "MessageOut" THEN [led EXCEPT !.msg = BN!Add(@, r.amount)]
+                     ELSE led, rcs, i + 1)
+\* state after a completed instruction
+NextVm(v, eff, oregs, omem) == [(IF eff.x THEN OkVm(v, eff) ELSE v) EXCEPT !.regs = oregs, !.mem = omem, !.slen = e.slen, !.nrc = v.nrc + Len(e.rc),
+                                                                       !.led = LedgerAfter(v.led, e.rc, 1)]
 
 \* registers after the harness's presets (an environment action), then after the step
 Over(regs, upd) == [r \in 0..63 |-> IF ToString(r) \in DOMAIN upd THEN upd[ToString(r)] ELSE regs[r]]
@@ -22,30 +42,43 @@ TSeg ==
 TInit ==
     /\ IsEv(l, "Init")
     /\ vm' = [regs |-> [r \in 0..63 |-> e.regs[r + 1]], mem |-> WriteBytes(<<>>, 0, e.stack), slen |-> BLen(e.stack), env |-> e.env, frames |-> <<>>,
-              glimit |-> e.regs[GGAS + 1], txlen |-> IF Has(e, "tx") THEN BLen(e.tx) ELSE 0, done |-> FALSE]
+              glimit |-> e.regs[GGAS + 1], txlen |-> IF Has(e, "tx") THEN BLen(e.tx) ELSE 0, done |-> FALSE,
+              code |-> IF Has(e, "contracts") THEN [c \in DOMAIN e.contracts |-> e.contracts[c].code] ELSE <<>>,
+              cbal |-> IF Has(e, "contracts") THEN [c \in DOMAIN e.contracts |-> e.contracts[c].bal] ELSE <<>>,
+              inputs |-> IF Has(e, "inputs") THEN {e.inputs[i] : i \in 1..Len(e.inputs)} ELSE {},
+              nrc |-> 0, opv |-> <<>>, outs |-> IF Has(e, "outs") THEN e.outs ELSE <<>>,
+              led |-> [mint |-> <<>>, burn |-> <<>>, msg |-> "0"],
+              bal0 |-> IF Has(e, "bal0") THEN e.bal0 ELSE <<>>, fee |-> IF Has(e, "fee") THEN e.fee ELSE <<>>,
+              outs0 |-> IF Has(e, "outs") THEN e.outs ELSE <<>>,
+              cbal0 |-> IF Has(e, "contracts") THEN [c \in DOMAIN e.contracts |-> e.contracts[c].bal] ELSE <<>>, fin |-> <<>>]
     /\ e.regs[HP + 1] = BN!FromNat(e.hp)
 TPoke ==
     /\ IsEv(l, "Poke")
     /\ vm' = [vm EXCEPT !.regs = ObservedRegs(vm)]
 
+\* the free-balance table (the VM's own bookkeeping, not writable by programs)
+InBalTable(v, a, d) == a >= 64 /\ a + BLen(d) <= 64 + 40 * v.env.max_inputs
+\* a panicking instruction leaves memory as it was, except that the VM may already have updated its own balance entries
+PanicMemOk(v) == \A i \in 1..Len(e.mem) : InBalTable(v, e.mem[i][1], e.mem[i][2])
 \* registers after a panicking instruction: out-of-gas leaves $cgas = 0; any other panic leaves the registers as they
 \* were, possibly with the gas charge applied and possibly with the writes the instruction may do before failing (pmay)
 PanicRegsOk(v, eff, reason, oregs) ==
     \/ /\ reason = "OutOfGas" /\ ~CanPay(v, eff.gas) /\ oregs = WithRegs(v, OutOfGasRegs(v))
     \/ /\ reason \in eff.pan
-       /\ \E g \in {<<>>} \cup (IF CanPay(v, eff.gas) THEN {Charged(v, eff.gas)} ELSE {}) :
+       /\ \E g \in {<<>>} \cup {Charged(v, x) : x \in {y \in eff.gst \cup {eff.gas} : CanPay(v, y)}} :
           \E m \in {<<>>, eff.pmay} : oregs = WithRegs(v, g @@ m)
 
 \* outcome of an exactly modelled instruction executed through Interpreter::instruction (mode "exec")
 ExactExec(v, eff, oregs, omem) ==
-    CASE e.out = "proceed" ->
-            /\ eff.pan = {} /\ eff.out = "proceed"
+    CASE e.out \in {"proceed", "return", "returndata", "revert"} ->
+            /\ eff.pan = {} /\ eff.out = e.out
             /\ CanPay(v, eff.gas)
             /\ oregs = OkRegs(v, eff)
             /\ omem = OkMem(v, eff)
             /\ e.slen = eff.slen
+            /\ Len(e.rc) = Len(eff.rc) /\ RcPrefixOk(eff)
       [] e.out = "panic" ->
-            /\ omem = v.mem
+            /\ PanicMemOk(v)
             /\ PanicRegsOk(v, eff, e.reason, oregs)
       [] OTHER -> FALSE
 
@@ -53,13 +86,13 @@ TStepExec ==
     /\ IsEv(l, "Step")
     /\ e.mode = "exec"
     /\ LET v     == Poked
-           eff   == EffectOf(v, e.word)
            oregs == ObservedRegs(v)
            omem  == ObservedMem(v)
        IN /\ GasMonotone(v.regs, oregs)
           /\ ConstRegsKept(oregs)
-          /\ (eff.x => ExactExec(v, eff, oregs, omem))
-          /\ vm' = [v EXCEPT !.regs = oregs, !.mem = omem, !.slen = e.slen]
+          /\ \E eff \in Effs(v, e.word) :
+                /\ (eff.x => ExactExec(v, eff, oregs, omem))
+                /\ vm' = IF e.out = "panic" THEN [v EXCEPT !.regs = oregs, !.mem = omem, !.slen = e.slen] ELSE NextVm(v, eff, oregs, omem)
 
 (***************************************************************************)
 (* mode "run": the real fetch / run loop, single-stepped.                  *)
@@ -76,6 +109,7 @@ TerminalMemOk(v, eff, okInstr) ==
     LET expected == IF okInstr THEN OkMem(v, eff) ELSE v.mem IN
     \A i \in 1..Len(e.mem) :
         \/ InTxImage(v, e.mem[i][1], e.mem[i][2])
+        \/ (~okInstr /\ InBalTable(v, e.mem[i][1], e.mem[i][2]))
         \/ ReadBytes(expected, e.mem[i][1], BLen(e.mem[i][2])) = e.mem[i][2]
 
 StepProceeds(v, eff, oregs, omem) ==
@@ -84,6 +118,7 @@ StepProceeds(v, eff, oregs, omem) ==
     /\ oregs = OkRegs(v, eff)
     /\ omem = OkMem(v, eff)
     /\ e.slen = eff.slen
+    /\ Len(e.rc) = Len(eff.rc) /\ RcPrefixOk(eff)
 \* script result bookkeeping shared by every way of finishing (C26, C28)
 ScriptResultOk(v, oregs, result) ==
     LET rcs == e.rc  last == rcs[Len(rcs)] IN
@@ -100,16 +135,17 @@ TStepRun ==
            oregs == ObservedRegs(v)
            omem  == ObservedMem(v)
            fp    == FetchPanics(v)
-           eff   == IF fp = {} THEN EffectOf(v, e.word) ELSE Unmodelled
        IN /\ GasMonotone(v.regs, oregs)
           /\ ConstRegsKept(oregs)
           /\ (fp = {} => e.word = Fetched(v))
-          /\ IF ~Has(e, "fin")
+          /\ \E eff \in (IF fp = {} THEN Effs(v, e.word) ELSE {Unmodelled}) :
+             IF ~Has(e, "fin")
              THEN \* the instruction completed and execution continues
                   /\ fp = {}
                   /\ (eff.x => StepProceeds(v, eff, oregs, omem))
                   /\ \A i \in 1..Len(e.rc) : e.rc[i].kind \notin {"ScriptResult", "Panic"}
-                  /\ vm' = [v EXCEPT !.regs = oregs, !.mem = omem, !.slen = e.slen]
+                  /\ (v.env.default_gas => BN!Lt(oregs[GGAS], v.regs[GGAS]))      \* C29: every executed instruction costs gas
+                  /\ vm' = NextVm(v, eff, oregs, omem)
              ELSE \* terminal step: the instruction's own outcome followed by the VM's finalisation
                   LET rcs == e.rc
                       n   == Len(rcs)
@@ -121,15 +157,17 @@ TStepRun ==
                              /\ Cardinality({i \in 1..n : rcs[i].kind = "Panic"}) = 1
                              /\ (eff.x =>
                                    \/ \* (A) the fetch of this very instruction failed
-                                      /\ fp # {} /\ pr.reason \in fp /\ oregs = v.regs /\ pr.pc = PcBN(v)
+                                      /\ fp # {} /\ pr.reason \in fp /\ oregs = v.regs /\ pr.pc = PcBN(v) /\ n = 2
                                       /\ TerminalMemOk(v, eff, FALSE)
                                    \/ \* (B) this instruction panicked
-                                      /\ fp = {} /\ pr.pc = PcBN(v) /\ pr.instr = e.word
+                                      /\ fp = {} /\ pr.pc = PcBN(v) /\ pr.instr = e.word /\ n = 2
+                                      /\ pr.id = CurContract(v)
                                       /\ PanicRegsOk(v, eff, pr.reason, oregs)
                                       /\ TerminalMemOk(v, eff, FALSE)
                                    \/ \* (C) this instruction completed and the fetch of the next one failed
                                       /\ fp = {} /\ eff.pan = {} /\ eff.out = "proceed" /\ CanPay(v, eff.gas)
                                       /\ oregs = OkRegs(v, eff)
+                                      /\ n = Len(eff.rc) + 2 /\ RcPrefixOk(eff)
                                       /\ pr.pc = oregs[PC]
                                       /\ pr.reason \in FetchPanics([v EXCEPT !.regs = oregs, !.mem = OkMem(v, eff), !.slen = eff.slen])
                                       /\ TerminalMemOk(v, eff, TRUE))
@@ -140,15 +178,84 @@ TStepRun ==
                              /\ \A i \in 1..n : rcs[i].kind # "Panic"
                              /\ (eff.x => (/\ eff.pan = {} /\ CanPay(v, eff.gas)
                                            /\ eff.out = e.fin.state
+                                           /\ n = Len(eff.rc) + 1 /\ RcPrefixOk(eff)
                                            /\ oregs = OkRegs(v, eff)
                                            /\ TerminalMemOk(v, eff, TRUE)))
-                     /\ vm' = [v EXCEPT !.regs = oregs, !.mem = omem, !.slen = e.slen, !.done = TRUE]
+                     /\ vm' = [(IF eff.x /\ ~panicked /\ e.fin.state # "revert" THEN OkVm(v, eff) ELSE v)
+                               EXCEPT !.regs = oregs, !.mem = omem, !.slen = e.slen, !.done = TRUE, !.nrc = v.nrc + Len(e.rc),
+                                      !.led = LedgerAfter(v.led, e.rc, 1),
+                                      !.fin = [state |-> e.fin.state, reverted |-> panicked \/ e.fin.state = "revert",
+                                               gas_used |-> e.rc[Len(e.rc)].gas_used]]
 
-\* Final: summary of a finished run (checked further in the receipts / assets modules)
+(***************************************************************************)
+(* Final: the finished transaction (C27 asset conservation, C28 outcome).  *)
+(***************************************************************************)
+MT == INSTANCE BinaryMerkleRef
+SumSeq(f, n) == LET RECURSIVE S(_) S(i) == IF i > n THEN "0" ELSE BN!Add(f[i], S(i + 1)) IN S(1)
+\* refund of the fee limit for the gas actually used: limit - (ceil((min_gas + used) * price / factor) + tip)
+UsedFee(v) == BN!Add(BN!CeilDiv(BN!Mul(Sat64(BN!Add(v.fee.min_gas, v.fin.gas_used)), v.fee.price), v.fee.factor), v.fee.tip)
+Refund(v) == BN!SatSub(v.fee.max_fee, UsedFee(v))
+Base(v) == v.env.base_asset
+NonRet(v, a) == IF a \in DOMAIN v.bal0.nonret THEN v.bal0.nonret[a] ELSE "0"
+\* free balance the transaction started with (message-data inputs only count when execution succeeds)
+Free0(v, a, success) == BN!Add(NonRet(v, a), IF a = Base(v) /\ success THEN v.bal0.retry ELSE "0")
+SumOver(S, f(_)) == LET RECURSIVE T(_) T(X) == IF X = {} THEN "0" ELSE LET x == CHOOSE x \in X : TRUE IN BN!Add(f(x), T(X \ {x})) IN T(S)
+ContractsSum(cb, a) == SumOver(DOMAIN cb, LAMBDA c : IF a \in DOMAIN cb[c] THEN cb[c][a] ELSE "0")
+OutSum(outs, kind, a) == SumOver({i \in 1..Len(outs) : outs[i].kind = kind /\ outs[i].asset = a}, LAMBDA i : outs[i].amount)
+Led(f, a) == IF a \in DOMAIN f THEN f[a] ELSE "0"
+WatchedAssets(v) == (DOMAIN v.bal0.nonret) \cup {Base(v)} \cup UNION {DOMAIN v.cbal0[c] : c \in DOMAIN v.cbal0}
+                    \cup (IF Has(e, "post") /\ Has(e.post, "contracts") THEN UNION {DOMAIN e.post.contracts[c].bal : c \in DOMAIN e.post.contracts} ELSE {})
+                    \cup DOMAIN v.led.mint \cup DOMAIN v.led.burn
+
+OutputsOk(v) ==
+    /\ Len(e.outputs) = Len(v.outs0)
+    /\ \A i \in 1..Len(e.outputs) :
+         LET o == e.outputs[i]  o0 == v.outs0[i] IN
+         CASE o0.kind = "Change" ->
+                  /\ o.kind = "Change" /\ o.to = o0.to /\ o.asset = o0.asset
+                  /\ o.amount = BN!Add(IF v.fin.reverted THEN NonRet(v, o.asset) ELSE FreeBal(v, o.asset),
+                                       IF o.asset = Base(v) THEN Refund(v) ELSE "0")
+           [] o0.kind = "Variable" ->
+                  /\ o.kind = "Variable"
+                  /\ IF v.fin.reverted THEN o.amount = "0"
+                     ELSE (o.amount = v.outs[i].amount /\ o.to = v.outs[i].to /\ o.asset = v.outs[i].asset)
+           [] OTHER -> o.kind = o0.kind /\ o.to = o0.to /\ o.amount = o0.amount /\ o.asset = o0.asset
+
+\* per asset: what was there + minted = what is there now + burned + sent away   (successful runs)
+Conserved(v, a) ==
+    LET cf == [c \in DOMAIN e.post.contracts |-> e.post.contracts[c].bal] IN
+    BN!Add(BN!Add(Free0(v, a, TRUE), ContractsSum(v.cbal0, a)), Led(v.led.mint, a))
+      = BN!Add(BN!Add(BN!Add(FreeBal(v, a), ContractsSum(cf, a)), BN!Add(OutSum(e.outputs, "Variable", a), Led(v.led.burn, a))),
+               IF a = Base(v) THEN v.led.msg ELSE "0")
+
 TFinal ==
     /\ IsEv(l, "Final")
+    /\ (vm.done =>
+          /\ e.nrc = vm.nrc /\ e.nrc <= ReceiptLimit                               \* C28: receipts counted, bounded
+          /\ e.receipts_root = MT!MTH(e.rc_all)                                    \* C28: root = RFC 6962 root of the encoded receipts
+          /\ (vm.outs0 # <<>> /\ vm.fee # <<>> => OutputsOk(vm))                    \* C28 / C27: change and variable outputs
+          /\ (~vm.fin.reverted /\ Has(e, "post") /\ Has(e.post, "contracts") =>
+                /\ \A a \in WatchedAssets(vm) : Conserved(vm, a)                   \* C27: ledger equation on observed balances
+                /\ \A c \in DOMAIN e.post.contracts : \A a \in DOMAIN e.post.contracts[c].bal :
+                      e.post.contracts[c].bal[a] = CBal(vm, c, a)))                  \* model balances = real storage
     /\ UNCHANGED vm
 
-TrNext == (TSeg \/ TInit \/ TPoke \/ TStepExec \/ TStepRun \/ TFinal) /\ l' = l + 1
+\* C28: the in-memory client leaves contract storage exactly as it was when the transaction reverted or panicked
+TClientTx ==
+    /\ IsEv(l, "ClientTx")
+    /\ (e.reverted => e.after = e.before)
+    /\ (~e.reverted => (Len(e.kinds) >= 1 /\ e.kinds[Len(e.kinds)] = "ScriptResult"))
+    /\ UNCHANGED vm
+\* C28: the receipt list is bounded; hitting the bound is a panic whose last two receipts are Panic + ScriptResult
+TRunSummary ==
+    /\ IsEv(l, "RunSummary")
+    /\ e.nrc <= ReceiptLimit
+    /\ Len(e.tail) = 2 /\ e.tail[2].kind = "ScriptResult"
+    /\ IF e.loops + 2 <= ReceiptLimit
+       THEN e.logs = e.loops /\ e.nrc = e.loops + 2 /\ e.tail[1].kind = "Return" /\ e.tail[2].result = "Success"
+       ELSE e.tail[1].kind = "Panic" /\ e.tail[1].reason = "TooManyReceipts" /\ e.tail[2].result = "Panic" /\ e.logs = e.nrc - 2
+    /\ UNCHANGED vm
+
+TrNext == (TSeg \/ TInit \/ TPoke \/ TStepExec \/ TStepRun \/ TFinal \/ TClientTx \/ TRunSummary) /\ l' = l + 1
 TrSpec == TrInit /\ [][TrNext]_trVars
 =============================================================================
